@@ -191,6 +191,9 @@ func Build(t *Topo) (*Net, error) {
 			if err != nil {
 				return nil, fmt.Errorf("router %s/%d: %w", as.IA, br, err)
 			}
+			// every router recycles one packet object for all the packets it sees during the walks (as its receive
+			// loops do with pool buffers): what one packet leaves behind in it must not influence the next
+			r.Recycle = true
 			rs = append(rs, r)
 		}
 		n.Routers = append(n.Routers, rs)
